@@ -79,6 +79,11 @@ TEXT = {
         "note": "C14(c) (a compatible soft solvable is included) is not yet checked; universal statement not proved.",
         "technique": "Lean 4 verified oracles (validB, decideSolvable, history checker) evaluated on every implementation run of the soft family",
     },
+    "C16": {
+        "text": "Partial proof + exact correspondence of the captured contents + verified oracles against the live provider. Lean proves the id discipline of SnapshotProvider (added ids fresh and distinct; every captured id incl. the highest resolvable; added ids resolve to the added sets) and reuses the Mapping serde theorem. Per run, for generated providers with sparse/shuffled ids and random seed subsets, the real DependencySnapshot must equal the model's breadth-first capture field by field (incl. per-package order), also after a serde_json round-trip; the problem (using the highest captured version set, plus 0-2 add_package_requirement calls) is solved live, via the snapshot and via the deserialised snapshot: verdicts must equal the verified decision procedure on the live data and solutions must be valid against the live data. Two genuine defects (Mapping::iter, id aliasing) were found and repaired.",
+        "note": "Closure completeness of the model's BFS and order preservation for arbitrary sort functions are not proved; hash-set fields make the exact solution through a snapshot process-dependent (see C06).",
+        "technique": "Lean 4 proofs of id freshness / resolution + exact capture correspondence + verified oracles on the live data",
+    },
     "C18": {
         "text": "Proof: Lean theorems about a literal model of Arena (chunked append-only storage) and of the interning tables of Pool, for every interleaving of intern/resolve/lookup of any length and every positive chunk size: ids are dense in allocation order; a later alloc changes no existing (chunk, offset) address and no stored value; no chunk ever exceeds its reserved capacity; interning twice returns the same id and changes nothing; resolve(intern v) = v; different values never share an id; lookup agrees with intern. Tied to src/internal/arena.rs and src/utils/pool.rs by exact I/O correspondence on random op sequences against the real Pool, including a runtime check that references taken at intern time keep their machine address and contents after later insertions.",
         "note": "Memory validity of references obtained through UnsafeCell is not proved (model addresses = (chunk, offset)); relies on Vec::with_capacity not reallocating below capacity.",
